@@ -16,8 +16,9 @@ BUILD = os.path.join(VERIF, "build")
 NPROC = int(os.environ.get("VERIF_NPROC", "16"))
 
 HOOK_GUARD = "UNODB_DETAIL_VERIF_HOOKS"
-BASE_FLAGS = ["-std=c++20", "-g", "-mavx2", "-DUNODB_DETAIL_WITH_STATS",
-              "-DUNODB_SPINLOCK_LOOP_VALUE=1", "-fno-access-control", "-I" + REPO, "-pthread"]
+BASE_FLAGS = ["-std=c++20", "-g", "-fno-access-control", "-I" + REPO, "-pthread"]
+# the configuration the repository's own baseline is built with
+CONFIG_DEFAULT = ["-mavx2", "-DUNODB_DETAIL_WITH_STATS", "-DUNODB_SPINLOCK_LOOP_VALUE=1"]
 REPO_LIB_SOURCES = ["qsbr.cpp", "qsbr_ptr.cpp", "art_internal.cpp"]
 
 
@@ -54,12 +55,13 @@ def engine_headers():
     return sorted(glob.glob(os.path.join(VERIF, "engines", "*", "*.hpp")))
 
 
-def build(name, sources, flags, compiler="g++", repo_sources=REPO_LIB_SOURCES, include_first=None):
+def build(name, sources, flags, compiler="g++", repo_sources=REPO_LIB_SOURCES, include_first=None, config=None):
     """Compile `sources` (paths under /verif) plus the repository's library
     sources into an executable.  The output path is keyed by the repository
     content, the engine sources and the flags; nothing is reused across
     different trees."""
     srcs = [os.path.join(VERIF, s) for s in sources]
+    flags = (CONFIG_DEFAULT if config is None else list(config)) + list(flags)
     key = _digest_files(srcs + engine_headers()) + hashlib.sha256(
         (" ".join(flags) + compiler + str(include_first)).encode()).hexdigest()[:8]
     outdir = os.path.join(BUILD, repo_digest())
